@@ -34,9 +34,9 @@ Definition CompOK (st : state) : Prop :=
     o_data oi = DDom li -> o_data oj = DDom lj ->
     starred (o_name oi) = false -> o_name oj = o_name oi ++ [cStar] -> li = lj.
 
-(* live domains have a non-zero length and a non-empty name *)
-Definition NoZero (st : state) : Prop :=
-  forall i o l, live_obj (heap st) i o -> o_data o = DDom l -> l <> 0%Z /\ nonempty (o_name o) = true.
+(* live domains have a non-empty name *)
+Definition NoEmpty (st : state) : Prop :=
+  forall i o l, live_obj (heap st) i o -> o_data o = DDom l -> nonempty (o_name o) = true.
 
 Definition data_kind (d : odata) : kind :=
   match d with DDom _ => KindD | DCplx _ _ _ => KindC | DStrand _ => KindS | DMac _ _ => KindM | DRxn _ _ _ => KindR end.
@@ -45,7 +45,7 @@ Definition data_kind (d : odata) : kind :=
 Definition KindOK (ct : ctable) (st : state) : Prop :=
   forall i o, live_obj (heap st) i o -> class_kind ct (o_cls o) = Some (data_kind (o_data o)).
 
-Definition DOK (ct : ctable) (st : state) : Prop := CompOK st /\ NoZero st /\ KindOK ct st.
+Definition DOK (ct : ctable) (st : state) : Prop := CompOK st /\ NoEmpty st /\ KindOK ct st.
 
 (* both only speak about live objects: anything that only shrinks liveness keeps them *)
 Definition LiveSub (s st : state) : Prop := forall i o, live_obj (heap s) i o -> live_obj (heap st) i o.
@@ -126,10 +126,10 @@ Definition PartnerOK (st : state) (c : nat) (nm : pstr) (l : Z) : Prop :=
                   o_data op = DDom lp -> lp = l.
 
 Lemma dok_create_dom ct st c auto nm l :
-  DOK ct st -> class_kind ct c = Some KindD -> PartnerOK st c nm l -> l <> 0%Z -> nonempty nm = true ->
+  DOK ct st -> class_kind ct c = Some KindD -> PartnerOK st c nm l -> nonempty nm = true ->
   DOK ct (fst (create ct st c auto nm (KDom nm l) [] [] (DDom l))).
 Proof.
-  intros [C [Z K]] Hk P Hl Hne. split; [|split].
+  intros [C [Z K]] Hk P Hne. split; [|split].
   - intros i j oi oj li lj Hi Hj Ec Di Dj Hs Hn.
     apply create_live in Hi. apply create_live in Hj.
     destruct Hi as [Hi| ->], Hj as [Hj| ->].
@@ -145,7 +145,7 @@ Proof.
       apply (P (or_introl Hs) j oj lj Hj (eq_sym Ec)); [|exact Dj]. rewrite cname_unstarred by exact Hs. exact Hn.
     + cbn in Hn. exfalso. eapply app_star_neq; eauto.
   - intros i o l' Hi Di. apply create_live in Hi. destruct Hi as [Hi| ->]; [exact (Z i o _ Hi Di)|].
-    cbn in Di. injection Di as <-. split; [exact Hl | exact Hne].
+    cbn in Di. exact Hne.
   - intros i o Hi. apply create_live in Hi. destruct Hi as [Hi| ->]; [apply (K i o Hi) | exact Hk].
 Qed.
 
@@ -160,11 +160,11 @@ Proof.
   destruct Hi as [Hi _], Hj as [Hj _]. congruence.
 Qed.
 
-Lemma obj_len_ok h o cl : obj_len h o = Ok cl -> exists ob, hget h o = Some ob /\ o_data ob = DDom cl.
+Lemma obj_len_ok h o cl : obj_length h o = Ok cl -> exists ob, hget h o = Some ob /\ o_data ob = DDom cl.
 Proof.
-  unfold obj_len. destruct (hget h o) as [ob|]; [|discriminate].
+  unfold obj_length. destruct (hget h o) as [ob|]; [|discriminate].
   destruct (o_data ob) as [len| | | |] eqn:E; try discriminate.
-  destruct (len <? 0)%Z; [discriminate|]. intros H; injection H as <-. exists ob. split; [reflexivity | exact E].
+  intros H; injection H as <-. exists ob. split; [reflexivity | exact E].
 Qed.
 
 Lemma sing_true : is_singleton_err eSingleton = true.
@@ -178,11 +178,11 @@ Lemma sing_false_index : is_singleton_err eIndex = false. Proof. vm_compute. ref
 Lemma sing_false_attr : is_singleton_err eAttribute = false. Proof. vm_compute. reflexivity. Qed.
 Lemma sing_false_oinit : is_singleton_err eObjectInit = false. Proof. vm_compute. reflexivity. Qed.
 
-Lemma obj_len_err_not_sing h o k : obj_len h o = Err k -> is_singleton_err k = false.
+Lemma obj_len_err_not_sing h o k : obj_length h o = Err k -> is_singleton_err k = false.
 Proof.
-  unfold obj_len. destruct (hget h o) as [ob|]; [|intros H; injection H as <-; apply sing_false_bad].
+  unfold obj_length. destruct (hget h o) as [ob|]; [|intros H; injection H as <-; apply sing_false_bad].
   destruct (o_data ob) as [len| | | |]; try (intros H; injection H as <-; apply sing_false_type).
-  destruct (len <? 0)%Z; [|discriminate]. intros H; injection H as <-. apply sing_false_value.
+  discriminate.
 Qed.
 
 Lemma cname_involutive n : base_unstarred n -> cname_of (cname_of n) = n.
@@ -203,15 +203,15 @@ Qed.
 Record RecSpec (ct : ctable) (c : nat) (rec : state -> pstr -> option Z -> state * cout) : Prop := mkRecSpec {
   rs_ok : RecOK ct rec;
   rs_ext : RecExt ct rec;
-  rs_dok : forall st n l, Inv ct st -> Collected st -> DOK ct st -> l <> Some 0%Z -> DOK ct (fst (rec st n l));
-  rs_ret : forall st n l o b, Inv ct st -> Collected st -> DOK ct st -> l <> Some 0%Z ->
+  rs_dok : forall st n l, Inv ct st -> Collected st -> DOK ct st -> DOK ct (fst (rec st n l));
+  rs_ret : forall st n l o b, Inv ct st -> Collected st -> DOK ct st ->
       snd (rec st n l) = CRet o b ->
       exists ob, live_obj (heap (fst (rec st n l))) o ob /\ o_cls ob = c /\ o_name ob = n /\
                  (forall l', l = Some l' -> o_data ob = DDom l');
   rs_none : forall st n k e, Inv ct st -> Collected st -> DOK ct st -> base_unstarred n ->
       snd (rec st n None) = CErr k e -> is_singleton_err k = true ->
       forall j oj, live_obj (heap (fst (rec st n None))) j oj -> o_cls oj = c -> o_name oj <> n;
-  rs_junk : forall st n l k e, Inv ct st -> Collected st -> DOK ct st -> l <> Some 0%Z ->
+  rs_junk : forall st n l k e, Inv ct st -> Collected st -> DOK ct st ->
       snd (rec st n l) = CErr k e -> is_singleton_err k = true -> Junk st (fst (rec st n l));
   (* a name-only request for an unstarred name is a pure look-up *)
   rs_unst : forall st n, starred n = false -> fst (rec st n None) = st
@@ -221,7 +221,7 @@ Record RecSpec (ct : ctable) (c : nat) (rec : state -> pstr -> option Z -> state
 Record NestedSpec (ct : ctable) (c : nat) (st : state) (nm : pstr) (len1 : option Z)
                   (r : state * res (option Z)) : Prop := mkNestedSpec {
   ns_dok : DOK ct (fst r);
-  ns_some : forall l2, snd r = Ok (Some l2) -> l2 <> 0%Z /\ PartnerOK (fst r) c nm l2;
+  ns_some : forall l2, snd r = Ok (Some l2) -> PartnerOK (fst r) c nm l2;
   ns_len : forall l2, snd r = Ok l2 -> len1 <> None -> l2 = len1;
   ns_ok_junk : forall v, snd r = Ok v -> Junk st (fst r);
   ns_err_junk : forall k, snd r = Err k -> is_singleton_err k = true -> Junk st (fst r);
@@ -248,7 +248,7 @@ Lemma partner_sub s st c nm l : LiveSub s st -> PartnerOK st c nm l -> PartnerOK
 Proof. intros L P Hb p op lp Hp. apply (P Hb p op lp). apply L. exact Hp. Qed.
 
 Lemma ns_ok ct c st nm len1 s v :
-  DOK ct s -> Junk st s -> (forall l2, v = Some l2 -> l2 <> 0%Z /\ PartnerOK s c nm l2) ->
+  DOK ct s -> Junk st s -> (forall l2, v = Some l2 -> PartnerOK s c nm l2) ->
   (len1 <> None -> v = len1) -> NestedSpec ct c st nm len1 (s, Ok v).
 Proof.
   intros D J P L. constructor; cbn [fst snd]; auto; try (intros; discriminate).
@@ -272,7 +272,7 @@ Proof.
 Qed.
 
 Lemma call_facts ct c rec st n l s1 r :
-  RecSpec ct c rec -> Inv ct st -> Collected st -> DOK ct st -> l <> Some 0%Z -> rec st n l = (s1, r) ->
+  RecSpec ct c rec -> Inv ct st -> Collected st -> DOK ct st -> rec st n l = (s1, r) ->
   Inv ct s1 /\ DOK ct s1 /\ Junk st (collect s1) /\ Inv ct (collect s1) /\ Collected (collect s1) /\ DOK ct (collect s1) /\
   (forall o b, r = CRet o b -> exists ob, live_obj (heap s1) o ob /\ o_cls ob = c /\ o_name ob = n /\
                                           (forall l', l = Some l' -> o_data ob = DDom l')) /\
@@ -280,10 +280,10 @@ Lemma call_facts ct c rec st n l s1 r :
       Junk st s1 /\ (l = None -> base_unstarred n ->
                      forall j oj, live_obj (heap s1) j oj -> o_cls oj = c -> o_name oj <> n)).
 Proof.
-  intros RS I C D Hl E.
+  intros RS I C D E.
   pose proof (rs_ok _ _ _ RS st n l I) as [I1 _].
   pose proof (rs_ext _ _ _ RS st n l I C) as X1.
-  pose proof (rs_dok _ _ _ RS st n l I C D Hl) as D1.
+  pose proof (rs_dok _ _ _ RS st n l I C D) as D1.
   pose proof (rs_ret _ _ _ RS st n l) as Rt.
   pose proof (rs_junk _ _ _ RS st n l) as Rj.
   pose proof (rs_none _ _ _ RS st n) as Rn.
@@ -291,88 +291,82 @@ Proof.
   destruct (collect_step ct st s1 I C I1 X1) as [_ [I1c C1c]].
   split; [exact I1|]. split; [exact D1|]. split; [eapply collect_ext; eauto|].
   split; [exact I1c|]. split; [exact C1c|]. split; [apply dok_collect; exact D1|]. split.
-  - intros o b ->. apply (Rt o b I C D Hl eq_refl).
+  - intros o b ->. apply (Rt o b I C D eq_refl).
   - intros k e Er Es. split.
     + subst r. eapply Rj; eauto.
     + intros El Hb j oj. subst l r. rewrite E in Rn. cbn [fst snd] in Rn. eapply Rn; eauto.
 Qed.
 
 Theorem nested_spec ct c rec st nm len1 :
-  RecSpec ct c rec -> Inv ct st -> Collected st -> DOK ct st -> len1 <> Some 0%Z ->
+  RecSpec ct c rec -> Inv ct st -> Collected st -> DOK ct st ->
   NestedSpec ct c st nm len1 (dom_nested rec st nm len1).
 Proof.
-  intros RS I C D Hl. unfold dom_nested.
-  assert (LN : None <> Some 0%Z) by discriminate.
+  intros RS I C D. unfold dom_nested.
   destruct len1 as [l|], (starred nm) eqn:ES.
   - (* x* with explicit length: partner x *)
-    assert (Hl0 : l <> 0%Z) by (intros ->; apply Hl; reflexivity).
-    destruct (Z.eqb l 0) eqn:EZ; [apply Z.eqb_eq in EZ; contradiction|].
     destruct (rec st (cname_of nm) None) as [s1 r] eqn:E1.
-    destruct (call_facts ct c rec st (cname_of nm) None s1 r RS I C D LN E1)
+    destruct (call_facts ct c rec st (cname_of nm) None s1 r RS I C D E1)
       as [I1 [D1 [J1c [I1c [C1c [D1c [Ret Err]]]]]]].
     destruct r as [o b|k e].
     + destruct (Ret o b eq_refl) as [ob [Ho [Ec [En _]]]].
-      destruct (obj_len (heap s1) o) as [cl|k] eqn:EL.
+      destruct (obj_length (heap s1) o) as [cl|k] eqn:EL.
       * apply obj_len_ok in EL. destruct EL as [ob' [Hg Ed]].
         assert (ob' = ob) by (destruct Ho as [Ho _]; congruence). subst ob'.
         destruct (Z.eqb cl l) eqn:Ecl.
         -- apply Z.eqb_eq in Ecl. subst cl. apply ns_ok; [exact D1c | exact J1c | | intros _; reflexivity].
-           intros l2 E. injection E as <-. split; [exact Hl0|].
+           intros l2 E. injection E as <-.
            eapply partner_sub; [apply livesub_collect|]. eapply partner_unique; eauto.
         -- apply ns_err_sing; [exact D1c | exact J1c | discriminate].
       * apply ns_err_other; [exact D1c | eapply obj_len_err_not_sing; eauto].
     + destruct (is_singleton_err k) eqn:Ek.
       * destruct (Err k e eq_refl Ek) as [J1 Nn]. apply ns_ok; [exact D1c | exact J1c | | intros _; reflexivity].
-        intros l2 E. injection E as <-. split; [exact Hl0|]. apply partner_none.
+        intros l2 E. injection E as <-. apply partner_none.
         intros Hb j oj Hj. apply livesub_collect in Hj. apply (Nn eq_refl (base_unstarred_cname _ Hb) j oj Hj).
       * apply ns_err_other; [exact D1 | exact Ek].
   - (* x with explicit length: partner x* *)
-    assert (Hl0 : l <> 0%Z) by (intros ->; apply Hl; reflexivity).
-    destruct (Z.eqb l 0) eqn:EZ; [apply Z.eqb_eq in EZ; contradiction|].
     destruct (rec st (cname_of nm) None) as [s1 r] eqn:E1.
-    destruct (call_facts ct c rec st (cname_of nm) None s1 r RS I C D LN E1)
+    destruct (call_facts ct c rec st (cname_of nm) None s1 r RS I C D E1)
       as [I1 [D1 [J1c [I1c [C1c [D1c [Ret Err]]]]]]].
     destruct r as [o b|k e].
     + destruct (Ret o b eq_refl) as [ob [Ho [Ec [En _]]]].
-      destruct (obj_len (heap s1) o) as [cl|k] eqn:EL;
+      destruct (obj_length (heap s1) o) as [cl|k] eqn:EL;
         [|apply ns_err_other; [exact D1c | eapply obj_len_err_not_sing; eauto]].
       apply obj_len_ok in EL. destruct EL as [ob' [Hg Ed]].
       assert (ob' = ob) by (destruct Ho as [Ho _]; congruence). subst ob'.
-      assert (HlS : Some l <> Some 0%Z) by congruence.
       destruct (rec (collect s1) (cname_of nm) (Some l)) as [s2 r2] eqn:E2.
-      destruct (call_facts ct c rec (collect s1) (cname_of nm) (Some l) s2 r2 RS I1c C1c D1c HlS E2)
+      destruct (call_facts ct c rec (collect s1) (cname_of nm) (Some l) s2 r2 RS I1c C1c D1c E2)
         as [I2 [D2 [J2c [I2c [C2c [D2c [Ret2 Err2]]]]]]].
       assert (J2 : Junk st (collect s2)) by (eapply junk_trans; eauto).
       destruct r2 as [o2 b2|k2 e2].
       * destruct (Ret2 o2 b2 eq_refl) as [ob2 [Ho2 [Ec2 [En2 Ed2]]]].
         apply ns_ok; [exact D2c | exact J2 | | intros _; reflexivity].
-        intros l2 E. injection E as <-. split; [exact Hl0|].
+        intros l2 E. injection E as <-.
         eapply partner_sub; [apply livesub_collect|]. eapply partner_unique; eauto.
       * destruct (is_singleton_err k2) eqn:Ek2; [|apply ns_err_other; [exact D2 | exact Ek2]].
         destruct (Err2 k2 e2 eq_refl Ek2) as [J21 _].
         destruct (Z.eqb cl l) eqn:Ecl; [|apply ns_err_sing; [exact D2c | exact J2 | discriminate]].
         apply Z.eqb_eq in Ecl. subst cl. apply ns_ok; [exact D2c | exact J2 | | intros _; reflexivity].
-        intros l2 E. injection E as <-. split; [exact Hl0|].
+        intros l2 E. injection E as <-.
         (* a live partner after the second call was live after the first: it is o *)
         eapply partner_sub; [|eapply (partner_unique ct s1); eauto].
         intros j oj Hj. apply livesub_collect in Hj. apply (livesub_junk _ _ J21) in Hj.
         apply livesub_collect in Hj. exact Hj.
     + destruct (is_singleton_err k) eqn:Ek; [|apply ns_err_other; [exact D1 | exact Ek]].
       destruct (Err k e eq_refl Ek) as [J1 Nn]. apply ns_ok; [exact D1c | exact J1c | | intros _; reflexivity].
-      intros l2 E. injection E as <-. split; [exact Hl0|]. apply partner_none.
+      intros l2 E. injection E as <-. apply partner_none.
       intros Hb j oj Hj. apply livesub_collect in Hj. apply (Nn eq_refl (base_unstarred_cname _ Hb) j oj Hj).
   - (* x* without length: take the partner's *)
     destruct (rec st (cname_of nm) None) as [s1 r] eqn:E1.
-    destruct (call_facts ct c rec st (cname_of nm) None s1 r RS I C D LN E1)
+    destruct (call_facts ct c rec st (cname_of nm) None s1 r RS I C D E1)
       as [I1 [D1 [J1c [I1c [C1c [D1c [Ret Err]]]]]]].
     destruct r as [o b|k e].
     + destruct (Ret o b eq_refl) as [ob [Ho [Ec [En _]]]].
-      destruct (obj_len (heap s1) o) as [cl|k] eqn:EL;
+      destruct (obj_length (heap s1) o) as [cl|k] eqn:EL;
         [|apply ns_err_other; [exact D1c | eapply obj_len_err_not_sing; eauto]].
       apply obj_len_ok in EL. destruct EL as [ob' [Hg Ed]].
       assert (ob' = ob) by (destruct Ho as [Ho _]; congruence). subst ob'.
       apply ns_ok; [exact D1c | exact J1c | | intros F; contradiction].
-      intros l2 E. injection E as <-. split; [apply (proj1 (proj1 (proj2 D1) o ob cl Ho Ed))|].
+      intros l2 E. injection E as <-.
       eapply partner_sub; [apply livesub_collect|]. eapply partner_unique; eauto.
     + destruct (is_singleton_err k) eqn:Ek; [|apply ns_err_other; [exact D1 | exact Ek]].
       apply ns_ok; [exact D1c | exact J1c | intros l2 E; discriminate | intros F; contradiction].
@@ -427,7 +421,7 @@ Record FinishSpec (ct : ctable) (c : nat) (st1 : state) (nm : pstr) (len2 : opti
 
 Lemma dom_finish_spec ct c st1 auto nm len2 :
   Inv ct st1 -> DOK ct st1 -> class_kind ct c = Some KindD -> nonempty nm = true ->
-  (forall l2, len2 = Some l2 -> l2 <> 0%Z /\ PartnerOK st1 c nm l2) ->
+  (forall l2, len2 = Some l2 -> PartnerOK st1 c nm l2) ->
   FinishSpec ct c st1 nm len2 (dom_finish ct c st1 auto nm len2).
 Proof.
   intros I D Hk Hne HP. pose proof (class_kind_lt _ _ _ Hk) as Hc. unfold dom_finish.
@@ -457,7 +451,7 @@ Proof.
     destruct OK' as [OKa OKb]. rewrite OKb, OKa, En in Hin. destruct Hin as [Hin|[]]. injection Hin as ->. exact Eq.
   - (* fresh: create *)
     destruct len2 as [l2|]; cbn [option_map] in EL; [|exfalso; eapply sing_fresh_none; eauto].
-    destruct (HP l2 eq_refl) as [Hl0 P].
+    pose proof (HP l2 eq_refl) as P.
     constructor.
     + apply dok_create_dom; auto.
     + intros o b E. unfold create in *. destruct (nth_error ct c) as [ci|]; [|discriminate].
@@ -490,7 +484,6 @@ Proof. destruct l; reflexivity. Qed.
 
 Lemma body_spec ct c rec st name len prefix dtype :
   class_kind ct c = Some KindD -> RecSpec ct c rec -> Inv ct st -> Collected st -> DOK ct st ->
-  (forall ci len1, nth_error ct c = Some ci -> dom_len1 ci len dtype = Ok len1 -> len1 <> Some 0%Z) ->
   BodySpec ct c st (dom_body rec ct c st name len prefix dtype) /\
   (forall ci nm len1 o b, nth_error ct c = Some ci -> resolve_name ct st c ci name prefix = Ok nm ->
      dom_len1 ci len dtype = Ok len1 ->
@@ -498,7 +491,7 @@ Lemma body_spec ct c rec st name len prefix dtype :
      exists ob, live_obj (heap (fst (dom_body rec ct c st name len prefix dtype))) o ob /\ o_cls ob = c /\
                 o_name ob = nm /\ (forall l', len1 = Some l' -> o_data ob = DDom l')).
 Proof.
-  intros Hk RS I C D Hz. unfold dom_body.
+  intros Hk RS I C D. unfold dom_body.
   assert (Triv : forall k, is_singleton_err k = false -> BodySpec ct c st (st, CErr k None)).
   { intros k Hf. constructor; cbn [fst snd]; [exact D | intros; discriminate|].
     intros k' e E S. injection E as <- _. congruence. }
@@ -512,13 +505,12 @@ Proof.
   destruct (negb (nonempty nm)) eqn:Ene.
   { split; [apply Triv, sing_false_index | intros; discriminate]. }
   apply negb_false_iff in Ene.
-  pose proof (Hz ci len1 eq_refl El) as Hl1.
-  pose proof (nested_spec ct c rec st nm len1 RS I C D Hl1) as NS.
+  pose proof (nested_spec ct c rec st nm len1 RS I C D) as NS.
   pose proof (inv_dom_nested ct rec st nm len1 (rs_ok _ _ _ RS) I) as I1.
   destruct (dom_nested rec st nm len1) as [st1 rl]. destruct NS as [N1 N2 N3 N4 N5 N6]. cbn [fst snd] in *.
   destruct rl as [len2|k].
   - pose proof (dom_finish_spec ct c st1 (is_none name) nm len2 I1 N1 Hk Ene) as FS.
-    assert (HP : forall l2, len2 = Some l2 -> l2 <> 0%Z /\ PartnerOK st1 c nm l2)
+    assert (HP : forall l2, len2 = Some l2 -> PartnerOK st1 c nm l2)
       by (intros l2 ->; apply N2; reflexivity).
     specialize (FS HP). destruct FS as [F1 F2 F3 F4 F5]. split.
     + constructor; [exact F1 | |].
@@ -543,15 +535,12 @@ Theorem recspec_step ct c rec :
   RecSpec ct c (fun st n l => dom_body rec ct c st (Some n) l None None).
 Proof.
   intros Hk RS. destruct (class_kind_nth _ _ _ Hk) as [ci Eci].
-  assert (Hz : forall l, l <> Some 0%Z -> forall ci' len1, nth_error ct c = Some ci' ->
-               dom_len1 ci' l None = Ok len1 -> len1 <> Some 0%Z).
-  { intros l Hl ci' len1 _ E. rewrite dom_len1_none in E. injection E as <-. exact Hl. }
   constructor.
   - intros st n l I. apply callok_dom_body; [apply (rs_ok _ _ _ RS) | exact I].
   - intros st n l I C. apply ext_dom_body; [apply (rs_ok _ _ _ RS) | apply (rs_ext _ _ _ RS) | exact I | exact C].
-  - intros st n l I C D Hl. apply (bs_dok _ _ _ _ (proj1 (body_spec ct c rec st (Some n) l None None Hk RS I C D (Hz l Hl)))).
-  - intros st n l o b I C D Hl E.
-    apply (proj2 (body_spec ct c rec st (Some n) l None None Hk RS I C D (Hz l Hl)) ci n l o b Eci eq_refl (dom_len1_none ci l) E).
+  - intros st n l I C D. apply (bs_dok _ _ _ _ (proj1 (body_spec ct c rec st (Some n) l None None Hk RS I C D))).
+  - intros st n l o b I C D E.
+    apply (proj2 (body_spec ct c rec st (Some n) l None None Hk RS I C D) ci n l o b Eci eq_refl (dom_len1_none ci l) E).
   - (* a refused name-only request: nobody of that name is live *)
     intros st n k e I C D Hb E S. revert E. unfold dom_body. rewrite Eci. cbn [resolve_name]. rewrite dom_len1_none.
     destruct (negb (nonempty n)) eqn:Ene.
@@ -565,14 +554,13 @@ Proof.
       assert (Ic : Inv ct (collect st)) by (apply inv_collect; exact I).
       assert (Dc : DOK ct (collect st)) by (apply dok_collect; exact D).
       destruct r1 as [o b|k1 e1].
-      * destruct (Rt o b I C D ltac:(discriminate) eq_refl) as [ob [Ho [Ec [Eno _]]]].
-        destruct (obj_len (heap st) o) as [cl|k'] eqn:EL.
+      * destruct (Rt o b I C D eq_refl) as [ob [Ho [Ec [Eno _]]]].
+        destruct (obj_length (heap st) o) as [cl|k'] eqn:EL.
         -- apply obj_len_ok in EL. destruct EL as [ob' [Hg Ed]].
            assert (ob' = ob) by (destruct Ho as [Ho _]; congruence). subst ob'.
            assert (Hoc : live_obj (heap (collect st)) o ob) by (apply (live_after_collect ct); auto).
-           assert (HP : forall l2, Some cl = Some l2 -> l2 <> 0%Z /\ PartnerOK (collect st) c n l2).
-           { intros l2 E2. injection E2 as <-. split; [apply (proj1 (proj1 (proj2 D) o ob cl Ho Ed))|].
-             eapply partner_unique; eauto. }
+           assert (HP : forall l2, Some cl = Some l2 -> PartnerOK (collect st) c n l2).
+           { intros l2 E2. injection E2 as <-. eapply partner_unique; eauto. }
            destruct (dom_finish_spec ct c (collect st) (is_none (Some n)) n (Some cl) Ic Dc Hk Ene HP) as [F1 F2 F3 F4 F5].
            cbn [fst snd]. intros E j oj Hj Ecj Enj. rewrite (F3 k e E S) in Hj.
            destruct (dom_data ct (collect st) j oj Dc Hj) as [lq Eq]; [rewrite Ecj; exact Hk|].
@@ -582,15 +570,15 @@ Proof.
            subst lq. apply (F5 k e cl E S eq_refl j oj Hj Ecj Enj Eq).
         -- cbn [fst snd]. intros E. injection E as <- _. apply obj_len_err_not_sing in EL. congruence.
       * destruct (is_singleton_err k1) eqn:Ek1.
-        -- assert (HP : forall l2, @None Z = Some l2 -> l2 <> 0%Z /\ PartnerOK (collect st) c n l2) by (intros; discriminate).
+        -- assert (HP : forall l2, @None Z = Some l2 -> PartnerOK (collect st) c n l2) by (intros; discriminate).
            destruct (dom_finish_spec ct c (collect st) (is_none (Some n)) n None Ic Dc Hk Ene HP) as [F1 F2 F3 F4 F5].
            cbn [fst snd]. intros E j oj Hj. rewrite (F3 k e E S) in Hj. apply (F4 k e E S eq_refl j oj Hj).
         -- cbn [fst snd]. intros E. injection E as <- _. congruence.
-    + assert (HP : forall l2, @None Z = Some l2 -> l2 <> 0%Z /\ PartnerOK st c n l2) by (intros; discriminate).
+    + assert (HP : forall l2, @None Z = Some l2 -> PartnerOK st c n l2) by (intros; discriminate).
       destruct (dom_finish_spec ct c st (is_none (Some n)) n None I D Hk Ene HP) as [F1 F2 F3 F4 F5].
       cbn [fst snd]. intros E j oj Hj. rewrite (F3 k e E S) in Hj. apply (F4 k e E S eq_refl j oj Hj).
-  - intros st n l k e I C D Hl E S.
-    apply (bs_junk _ _ _ _ (proj1 (body_spec ct c rec st (Some n) l None None Hk RS I C D (Hz l Hl))) k e E S).
+  - intros st n l k e I C D E S.
+    apply (bs_junk _ _ _ _ (proj1 (body_spec ct c rec st (Some n) l None None Hk RS I C D)) k e E S).
   - intros st n ES. unfold dom_body. rewrite Eci. cbn [resolve_name]. rewrite dom_len1_none.
     destruct (negb (nonempty n)); [reflexivity|]. unfold dom_nested. rewrite ES. cbn [fst snd].
     unfold dom_finish. cbn [option_map]. destruct (sing_lookup (cget st c) n None); reflexivity.
@@ -602,10 +590,10 @@ Proof.
   constructor.
   - intros st n l I. apply callok_err. exact I.
   - intros st n l I C. apply ext_refl.
-  - intros st n l I C D Hl. exact D.
-  - intros st n l o b I C D Hl E. discriminate.
+  - intros st n l I C D. exact D.
+  - intros st n l o b I C D E. discriminate.
   - intros st n k e I C D Hb E S. cbn [snd] in E. injection E as <- _. rewrite sing_false_fuel in S. discriminate.
-  - intros st n l k e I C D Hl E S. cbn [snd] in E. injection E as <- _. rewrite sing_false_fuel in S. discriminate.
+  - intros st n l k e I C D E S. cbn [snd] in E. injection E as <- _. rewrite sing_false_fuel in S. discriminate.
   - intros st n ES. reflexivity.
 Qed.
 
@@ -616,26 +604,12 @@ Proof.
   cbn [dom_call]. apply (recspec_step ct c _ Hk IH).
 Qed.
 
-Definition LenGuard (ct : ctable) (c : nat) (len : option Z) (dtype : option pstr) : Prop :=
-  forall ci len1, nth_error ct c = Some ci -> dom_len1 ci len dtype = Ok len1 -> len1 <> Some 0%Z.
-
 Theorem dok_dom_call fuel ct c st name len prefix dtype :
-  class_kind ct c = Some KindD -> Inv ct st -> Collected st -> DOK ct st -> LenGuard ct c len dtype ->
+  class_kind ct c = Some KindD -> Inv ct st -> Collected st -> DOK ct st ->
   DOK ct (fst (dom_call fuel ct c st name len prefix dtype)).
 Proof.
-  intros Hk I C D G. destruct fuel as [|f]; [exact D|]. cbn [dom_call].
-  apply (bs_dok _ _ _ _ (proj1 (body_spec ct c _ st name len prefix dtype Hk (recspec_fuel ct c f Hk) I C D G))).
-Qed.
-
-(* class constants and explicit lengths different from 0 *)
-Definition consts_nonzero (ct : ctable) : Prop := forall c ci, nth_error ct c = Some ci -> c_short ci <> 0%Z /\ c_long ci <> 0%Z.
-
-Lemma len_guard ct c len dtype : consts_nonzero ct -> len <> Some 0%Z -> LenGuard ct c len dtype.
-Proof.
-  intros HC Hl ci len1 Eci E. destruct (HC c ci Eci) as [H1 H2]. unfold dom_len1 in E. destruct len as [l|].
-  - destruct (_ && _); [discriminate|]. injection E as <-. exact Hl.
-  - destruct (is_s dtype sShort); [injection E as <-; congruence|].
-    destruct (is_s dtype sLong); injection E as <-; congruence.
+  intros Hk I C D. destruct fuel as [|f]; [exact D|]. cbn [dom_call].
+  apply (bs_dok _ _ _ _ (proj1 (body_spec ct c _ st name len prefix dtype Hk (recspec_fuel ct c f Hk) I C D))).
 Qed.
 
 Lemma dok_finish ct dst r : DOK ct (fst r) -> DOK ct (fst (finish dst r)).
